@@ -17,9 +17,10 @@ ASSUMPTIONS = [
     "locality is established on the encoding: the value of window k mentions only the input variables of its own window (frame argument), and for WF it is a function of the reduced letters by the reference",
     "get_indexed_complexity_vector is additionally encoded as integer arithmetic with a symbolic sequence length and an enumerated vector length K; np.arange(start, stop, step) is modelled "
     "as the arithmetic progression it denotes, with the obligation that it has exactly K elements",
-    "user alphabets: total valid dictionaries with symbolic values (at least two distinct images asserted by the property)",
+    "complexity profiles are checked for the 12 predefined alphabets; user alphabets inside complexity profiles were tried (symbolic images) and are outside: the encoding was too slow and "
+    "produced non-reproducing candidates, so it is not part of the check (their reduction step is C12's subject)",
 ]
-OUTSIDE = ["sequence lengths above the bound", "window/step/word sizes above the bound", "K > 64 / seq_len > 10000 for the position row arithmetic"]
+OUTSIDE = ["sequence lengths above the bound", "window/step/word sizes above the bound", "user alphabets inside complexity profiles (their reduction is C12's subject)", "K > 64 / seq_len > 10000 for the position row arithmetic"]
 NMAX = {"quick": 5, "thorough": 6}
 KMAX = {"quick": 64, "thorough": 256}
 ITEM_TIMEOUT = {"quick": 900, "thorough": 3400}
@@ -103,6 +104,8 @@ def run_item(item):
                 explore(I, res, thunk, on_return, cex, label="reject w>N", on_raise=on_raise)
         res["samples"].append(dict(item="reject", obligation="unknown types and windows longer than the sequence end in an exception on every path"))
         return finish(I, res)
+    if kind == "user":
+        return run_user(item, res, I, vs, s)
     A = item["A"]
     words = [3] if kind != "LC" else [1, 2, 3]
     for w in range(1, N + 1):
@@ -169,6 +172,46 @@ def run_item(item):
     return finish(I, res)
 
 
+def run_user(item, res, I, vs, s):
+    """WF / LZW profiles with a total, valid user alphabet whose 20 images are symbolic (at least two distinct images)"""
+    from localcider.sequenceParameters import SequenceParameters
+    N = item["N"]
+    uv = {a: z3.Int("img_%s" % a) for a in AA}
+    entries = {}
+    for a in AA:
+        I.solver.add(uv[a] >= 0, uv[a] < 20)
+        entries[a] = (True, FD([(uv[a] == k, AA[k]) for k in range(20)]))
+    I.solver.add(z3.Or(*[uv[a] != uv["A"] for a in AA[1:]]))
+    ud = SymDict(entries)
+
+    def cex(m, ct="WF", w=1):
+        return dict(kind="user", seq=seq_of_model(m, vs), userdict={a: AA[m.eval(uv[a], model_completion=True).as_long()] for a in AA}, ctype=ct, w=w)
+    for ct in ("WF", "LZW"):
+        for w in range(1, N + 1):
+            K = N - w + 1
+
+            def thunk(ct=ct, w=w):
+                return I.call(I.call(SequenceParameters, [s], {}).get_linear_complexity, [], {"complexityType": ct, "userAlphabet": ud, "blobLen": w})
+
+            def on_return(ob, val, m, ct=ct, w=w, K=K):
+                lab = "%s(user alphabet, w=%d, N=%d)" % (ct, w, N)
+                rows = rows_of(val)
+                ok = rows is not None and len(rows) == 2 and len(rows[0]) == K and len(rows[1]) == K
+                ob.prove(bool(ok), lab + " is a 2 x K array", lambda m_: cex(m, ct, w))
+                if not ok:
+                    return
+                pos = [int(x) for x in rows[0]]
+                ob.prove(all(1 <= p <= N for p in pos) and all(pos[i] < pos[i + 1] for i in range(K - 1)), lab + " positions strictly increasing within 1..N", lambda m_: cex(m, ct, w))
+                for k in range(K):
+                    x = rows[1][k]
+                    xz = zreal(x) if is_sym(x) else rv(float(x))
+                    ob.prove(z3.And(xz >= -rv(TOL), xz <= 1 + rv(TOL)), lab + " value %d in [0,1]" % k, lambda mm: cex(mm, ct, w))
+                if len(res["samples"]) < 2:
+                    res["samples"].append(dict(item=item["name"], witness=cex(m, ct, w), obligation=lab + ": shape, positions, range for every total valid user alphabet with >= 2 images"))
+            explore(I, res, thunk, on_return, lambda m: cex(m), label="%s %s w=%d" % (item["name"], ct, w))
+    return finish(I, res)
+
+
 def run_index(item, res, I):
     """get_indexed_complexity_vector as integer arithmetic: symbolic seq_len, enumerated vector length K"""
     import numpy as np
@@ -226,6 +269,15 @@ def replay(cex):
     seq = cex["seq"]
     N = len(seq)
     sp = SequenceParameters(seq)
+    if kind == "user":
+        try:
+            out = np.asarray(sp.get_linear_complexity(complexityType=cex["ctype"], userAlphabet=cex["userdict"], blobLen=cex["w"]))
+        except Exception as ex:
+            return True, "%s with user alphabet %r on %s raised %s: %s" % (cex["ctype"], cex["userdict"], seq, type(ex).__name__, ex)
+        K = N - cex["w"] + 1
+        pos = [int(x) for x in out[0]] if out.ndim == 2 else []
+        bad = out.shape != (2, K) or any(p < 1 or p > N for p in pos) or any(pos[i] >= pos[i + 1] for i in range(K - 1)) or any(v < -TOL or v > 1 + TOL for v in out[1])
+        return bad, "%s user alphabet %r seq %s w=%d -> %r" % (cex["ctype"], cex["userdict"], seq, cex["w"], out.tolist())
     if kind == "reject":
         ctype = eval(cex["ctype"])
         try:
